@@ -163,7 +163,7 @@ pub fn all() -> Vec<PropDef> {
         real: REAL_ASYNC.to_vec(), stub: STUB_ASYNC.to_vec(),
     });
     v.push(PropDef {
-        miri: Some(("c13", 64, 4096)),
+        miri: Some(("c13", 32, 2048)),
         id: "C13", level: "exploration", driver: "D2 (single-threaded histories; every get_token future has its own waker)",
         scens: vec![s("histories", d2sema::c13, 180_000, 6_000_000)],
         rule: "each run = one seeded history (6..70 operations) over a runner with limit 1..4 and its clones: create a get_token future on any runner, poll one (woken ones preferred half of the time), drop a token unused, cancel a pending request, run a token to completion on a simulated connection (client closes / one request / handler panics and unwinds through Token::run), clone a runner, shut a runner down and poll shutdown futures; after every operation: live tokens <= limit, a free slot with queued requests implies one of them was woken since it last returned Pending, first-poll and woken-poll readiness clauses; distinct = distinct (skeleton, digest)",
